@@ -1,4 +1,227 @@
-import Uquic.Model.H3.Fields
+/-
+C19 — only well-formed HTTP/3 field sections are accepted; writers and parser agree.
+
+Property theorems only. Model: Uquic/Model/H3/Fields.lean (http3/headers.go) and
+Uquic/Model/H3/Writer.lean (request_writer.go encodeHeaders, headers.go writeTrailers); reference
+predicate: Uquic/Spec/H3FieldsWF.lean (RFC 9114 §4.2–4.3). Every theorem quantifies over ALL field
+lists `fs` (arbitrary bytes in names and values, any length), all limits, both directions, and all
+answers `ext` of `strings.ToLower` on non-ASCII names.
+-/
+import Uquic.Proofs.FieldsStep
+
 namespace Uquic.Props.C19
-theorem placeholder : True := trivial
+open Uquic.Model.H3.Fields Uquic.Gen.H3Fields Uquic.Proofs.Fields
+open Uquic.Spec.H3Fields (WellFormed WellFormedG PseudoUnique ClNumeric)
+open Uquic.Spec.H3FieldsMon (requestRules responseRules)
+
+abbrev Field := List Nat × List Nat
+
+/-! ## 1. accept_sound -/
+
+/-- decomposition of a successful parseHeaders call -/
+theorem parse_ok_inv (ext : List Nat → Bool) (isReq : Bool) (lim : Int) (fs : List Field) (q : Bool) (h : Hdr)
+    (hp : parseHeadersQ ext isReq lim fs q = .ok h) :
+    ∃ s, Inv isReq lim fs s ∧ q = false ∧ finish s = .ok h := by
+  unfold parseHeadersQ at hp
+  split at hp
+  · cases hp
+  rename_i s hs
+  have inv := inv_run ext isReq lim fs [] _ s (inv_init isReq lim) hs
+  simp only [List.nil_append] at inv
+  cases q with
+  | true => simp at hp
+  | false => exact ⟨s, inv, rfl, by simpa using hp⟩
+
+theorem finish_cl (s : PS) (h : Hdr) (hf : finish s = .ok h) :
+    s.clStr = [] ∨ (s.clStr ≠ [] ∧ ∀ b ∈ s.clStr, isDigit b = true) := by
+  unfold finish at hf
+  split at hf
+  · rename_i hne
+    right
+    refine ⟨by simpa using hne, ?_⟩
+    split at hf
+    · cases hf
+    rename_i v hv
+    unfold parseUint63 at hv
+    split at hv
+    · rename_i hc
+      simp only [Bool.and_eq_true] at hc
+      exact fun b hb => List.all_eq_true.mp hc.1.2 b hb
+    · cases hv
+  · rename_i he
+    left; simpa using he
+
+/-- `accept_sound_partial`: every header section parseHeaders accepts satisfies every clause of the
+    reference predicate, except that a Content-Length field may have an EMPTY value (finding
+    C19-empty-content-length: the unchanged code accepts and drops it). Uniqueness of pseudo-header
+    fields is included at full strength (the defect repaired by /repo commit 9602041). -/
+theorem accept_sound_partial (ext : List Nat → Bool) (isReq : Bool) (lim : Int) (hlim : 0 ≤ lim) (fs : List Field) (h : Hdr)
+    (hp : parseHeaders ext isReq lim fs = .ok h) : WellFormedG true isReq lim fs := by
+  obtain ⟨s, inv, _, hf⟩ := parse_ok_inv ext isReq lim fs false h hp
+  refine ⟨inv.names, inv.values, inv.noconn, inv.te, inv.known, inv.first, ?_, ?_, ?_, ?_⟩
+  · unfold PseudoUnique; rw [← inv.seen]; exact inv.nodup
+  · intro f hf' g hg hfn hgn
+    cases hr : s.readCL with
+    | false => exact absurd hfn ((inv.clNone hr).1 f hf')
+    | true => rw [inv.clSome hr f hf' hfn, inv.clSome hr g hg hgn]
+  · intro f hf' hfn
+    refine ⟨Or.inr rfl, ?_⟩
+    cases hr : s.readCL with
+    | false => exact absurd hfn ((inv.clNone hr).1 f hf')
+    | true =>
+      rw [inv.clSome hr f hf' hfn]
+      rcases finish_cl s h hf with he | ⟨_, hd⟩
+      · rw [he]; simp
+      · exact hd
+  · show Uquic.Spec.H3Fields.sectionSize fs ≤ lim
+    by_cases hfs : fs = []
+    · subst hfs; simpa [Uquic.Spec.H3Fields.sectionSize] using hlim
+    · have := inv.nonneg hfs
+      have := inv.lim
+      omega
+
+/-- `accept_sound`: with no empty Content-Length value in the section, acceptance implies the full
+    reference predicate `WellFormed`. -/
+theorem accept_sound (ext : List Nat → Bool) (isReq : Bool) (lim : Int) (hlim : 0 ≤ lim) (fs : List Field) (h : Hdr)
+    (hcl : ∀ f ∈ fs, f.1 = nContentLength → f.2 ≠ [])
+    (hp : parseHeaders ext isReq lim fs = .ok h) : WellFormed isReq lim fs := by
+  have w := accept_sound_partial ext isReq lim hlim fs h hp
+  exact { w with cl_numeric := fun f hf hn => ⟨Or.inl (hcl f hf hn), (w.cl_numeric f hf hn).2⟩ }
+
+/-- the statement at full strength … -/
+def accept_sound_full : Prop :=
+  ∀ (ext : List Nat → Bool) (isReq : Bool) (lim : Int), 0 ≤ lim → ∀ (fs : List Field) (h : Hdr),
+    parseHeaders ext isReq lim fs = .ok h → WellFormed isReq lim fs
+
+/-- … is false of the unchanged code: `content-length: ""` is accepted (known finding). -/
+theorem accept_sound_full_witness : ¬ accept_sound_full := by
+  intro H
+  have := H (fun _ => true) true 1000 (by decide) [(nContentLength, [])] _ rfl
+  exact absurd this.cl_numeric (by decide)
+
+/-- pseudo-header fields of an accepted section are pairwise distinct — at full strength. -/
+theorem pseudo_unique (ext : List Nat → Bool) (isReq : Bool) (lim : Int) (fs : List Field) (h : Hdr)
+    (hp : parseHeaders ext isReq lim fs = .ok h) : PseudoUnique fs := by
+  obtain ⟨s, inv, _, _⟩ := parse_ok_inv ext isReq lim fs false h hp
+  unfold PseudoUnique; rw [← inv.seen]; exact inv.nodup
+
+/-- the witness of the repaired defect (`:path ""` then `:path /x`) is not accepted, whatever `ext` says … -/
+theorem old_witness_rejected (ext : List Nat → Bool) :
+    ∃ e, parseHeaders ext true 100000
+      [(nMethod, B "GET"), (nScheme, B "https"), (nAuthority, B "a"), (nPath, []), (nPath, B "/x")] = .error e := by
+  cases hp : parseHeaders ext true 100000
+      [(nMethod, B "GET"), (nScheme, B "https"), (nAuthority, B "a"), (nPath, []), (nPath, B "/x")] with
+  | error e => exact ⟨e, rfl⟩
+  | ok h => exact absurd (pseudo_unique ext true _ _ h hp) (by decide)
+
+/-- rejection class of a result (`none` = accepted) -/
+def errOf {α} : Except Err α → Option Err
+  | .error e => some e
+  | .ok _ => none
+
+/-- … and the class is "duplicate pseudo header" -/
+example : errOf (parseHeaders (fun _ => true) true 100000
+      [(nMethod, B "GET"), (nScheme, B "https"), (nAuthority, B "a"), (nPath, []), (nPath, B "/x")])
+      = some .dupPseudo := by decide
+
+set_option maxRecDepth 8000 in
+/-- hypotheses of `accept_sound` are satisfiable by a non-trivial section -/
+example : ∃ h, parseHeaders (fun _ => true) true 1000
+    [(nMethod, B "POST"), (nScheme, B "https"), (nAuthority, B "example.com"), (nPath, B "/a"),
+     (B "cookie", B "a=b"), (nContentLength, B "12"), (nTe, vTrailers), (nContentLength, B "12")] = .ok h ∧ h.contentLength = 12 :=
+  ⟨_, rfl, rfl⟩
+
+/-- "anything else is rejected": a section violating the (weakened) reference predicate is rejected -/
+theorem malformed_rejected (ext : List Nat → Bool) (isReq : Bool) (lim : Int) (hlim : 0 ≤ lim) (fs : List Field)
+    (hbad : ¬ WellFormedG true isReq lim fs) : ∃ e, parseHeaders ext isReq lim fs = .error e := by
+  cases hp : parseHeaders ext isReq lim fs with
+  | error e => exact ⟨e, rfl⟩
+  | ok h => exact absurd (accept_sound_partial ext isReq lim hlim fs h hp) hbad
+
+/-! ## 2. reject_maps_to_error -/
+
+/-- RFC 9114 §8.1 / RFC 9204 §6 code points -/
+def H3_MESSAGE_ERROR : Int := 0x010e
+def H3_EXCESSIVE_LOAD : Int := 0x0107
+def QPACK_DECOMPRESSION_FAILED : Int := 0x0200
+
+/-- Every rejection class maps to the error the caller sends. Server (handleRequestStream): a QPACK
+    decoding error resets the stream with QPACK_DECOMPRESSION_FAILED, an oversized section stops reading
+    with H3_EXCESSIVE_LOAD and is answered by a 431 response, every other (malformed) class resets the
+    stream with H3_MESSAGE_ERROR. Client (ReadResponse): QPACK_DECOMPRESSION_FAILED for a decoding
+    error, H3_MESSAGE_ERROR for everything else, including an oversized section.
+    (RFC 9204 §2.2 makes a decoding failure a CONNECTION error; the code resets the stream only — noted.) -/
+theorem reject_maps_to_error (e : Err) :
+    (e = .qpack → serverReaction e = ⟨QPACK_DECOMPRESSION_FAILED, false⟩ ∧ clientReaction e = ⟨QPACK_DECOMPRESSION_FAILED, false⟩) ∧
+    (e = .tooLarge → serverReaction e = ⟨H3_EXCESSIVE_LOAD, true⟩ ∧ clientReaction e = ⟨H3_MESSAGE_ERROR, false⟩) ∧
+    (e ≠ .qpack → e ≠ .tooLarge → serverReaction e = ⟨H3_MESSAGE_ERROR, false⟩ ∧ clientReaction e = ⟨H3_MESSAGE_ERROR, false⟩) ∧
+    cliTooLargeSpecial = false := by
+  cases e <;> decide
+
+/-- the rejection classes of the parseHeaders loop -/
+def loopErrors : List Err := [.tooLarge, .notLower, .badValue, .pseudoAfterRegular, .unknownPseudo, .dupPseudo,
+  .reqPseudo, .respPseudo, .badName, .forbiddenName, .te, .clConflict]
+
+theorem validateRegular_err (f : Field) (e : Err) (h : validateRegular f = .error e) : e ∈ [Err.badName, .forbiddenName, .te] := by
+  unfold validateRegular at h
+  repeat' split at h
+  all_goals first | (cases h; decide) | cases h
+
+theorem regularErrors_sub : ∀ x ∈ [Err.badName, .forbiddenName, .te], x ∈ loopErrors := by decide
+
+theorem stepField_err (ext : List Nat → Bool) (isReq : Bool) (s : PS) (f : Field) (e : Err)
+    (h : stepField ext isReq s f = .error e) : e ∈ loopErrors := by
+  unfold stepField at h
+  simp only [] at h
+  repeat' split at h
+  all_goals first
+    | (cases h; decide)
+    | (cases h; exact regularErrors_sub _ (validateRegular_err f _ ‹_›))
+    | cases h
+
+theorem runFields_err (ext : List Nat → Bool) (isReq : Bool) (fs : List Field) :
+    ∀ (s : PS) (e : Err), runFields ext isReq s fs = .error e → e ∈ loopErrors := by
+  induction fs with
+  | nil => intro s e h; simp [runFields] at h
+  | cons f rest ih =>
+    intro s e h
+    simp only [runFields] at h
+    split at h
+    · rename_i e' hs; cases h; exact stepField_err ext isReq s f _ hs
+    · exact ih _ _ h
+
+/-- every rejection of parseHeaders is one of: a decoding error (only when the decoder reported one), an
+    oversized section, or a malformed-section class -/
+theorem parse_error_classes (ext : List Nat → Bool) (isReq : Bool) (lim : Int) (fs : List Field) (q : Bool) (e : Err)
+    (h : parseHeadersQ ext isReq lim fs q = .error e) : (e = .qpack ∧ q = true) ∨ e ∈ loopErrors ∨ e = .clInvalid := by
+  unfold parseHeadersQ at h
+  split at h
+  · rename_i e' hr; cases h; exact Or.inr (Or.inl (runFields_err ext isReq fs _ _ hr))
+  · split at h
+    · rename_i hq; cases h; exact Or.inl ⟨rfl, hq⟩
+    · unfold finish at h
+      repeat' split at h
+      all_goals first | (cases h; exact Or.inr (Or.inr rfl)) | cases h
+
+/-- a malformed request section is answered with a stream error (H3_MESSAGE_ERROR, or the
+    H3_EXCESSIVE_LOAD + 431 handling when it is over the limit), never accepted -/
+theorem malformed_request_stream_error (ext urlOK : List Nat → Bool) (lim : Int) (hlim : 0 ≤ lim) (fs : List Field)
+    (hbad : ¬ WellFormedG true true lim fs) :
+    ∃ e, requestFromHeaders ext urlOK lim fs false = .error e ∧
+      (serverReaction e = ⟨H3_MESSAGE_ERROR, false⟩ ∨ serverReaction e = ⟨H3_EXCESSIVE_LOAD, true⟩) := by
+  obtain ⟨e, he⟩ := malformed_rejected ext true lim hlim fs hbad
+  refine ⟨e, ?_, ?_⟩
+  · simp only [requestFromHeaders]
+    simp only [parseHeaders] at he
+    rw [he]
+  · have hq : e ≠ .qpack := by
+      rcases parse_error_classes ext true lim fs false e he with ⟨_, hq⟩ | hl | hc
+      · cases hq
+      · intro hq; subst hq; revert hl; decide
+      · intro hq; subst hq; cases hc
+    have := reject_maps_to_error e
+    by_cases ht : e = .tooLarge
+    · exact Or.inr (this.2.1 ht).1
+    · exact Or.inl (this.2.2.1 hq ht).1
+
 end Uquic.Props.C19
